@@ -1,23 +1,47 @@
-(* C03 — property theorems only: each closed by [exact] of a lemma proved elsewhere. *)
+(* C03 — property theorems only: each closed by [exact] of a lemma proved elsewhere.
+
+   [run_op K kh dresp rn ns o f l0 k0] runs operation o on ledger l0 and cluster state k0
+   under the ARBITRARY cluster handler kh (every cluster behaviour: any call may fail, at any
+   position, any number of times); [nofault] = no storage-write failure, no crash.
+   [run_store_op] is its instance at the object-store cluster with a one-shot fault plan
+   cf = (rejected verb on a key | failing n-th watch of a hook | failing wait).  Revisions
+   "created by the operation" are the revisions of the final ledger that the initial ledger
+   did not have. *)
 From Coq Require Import List String Bool Arith.
 From Helm Require Import Common.Assoc Engine.Types Engine.Eff Engine.Ops Engine.Cluster Engine.Seq
-  Engine.Contain Engine.ContainRefuted.
+  Engine.SeqProofs Engine.HooksProofsGate Engine.ContainLedger Engine.ContainProofs Engine.ContainDeployed
+  Engine.Contain Engine.ContainRefuted Engine.ContainStore.
 Import ListNotations.
 Local Open Scope string_scope.
 
-(* Known finding K6 — why C03_atomic_upgrade carries its hypothesis: install {a,b};
-   upgrade --atomic to {a'} with PATCH a rejected: the automatic rollback aborts on the
-   dropped resource b; history 1:deployed 2:superseded 3:failed, no new deployed revision. *)
-Theorem C03_atomic_dropped_refuted :
-  exists h w out,
-    final h = Some (w, out) /\ out = OErr EOtherErr /\
-    statuses (w_led w) = [(1, SDeployed); (2, SSuperseded); (3, SFailed)] /\
-    amem "ConfigMap/b" (w_objs w) = true.
-Proof. exact atomic_dropped_refuted. Qed.
-Print Assumptions C03_atomic_dropped_refuted.
+(* C03_failed_is_recorded — a non-atomic install / upgrade / rollback that returns an error
+   leaves every revision it created with status failed (never pending, never deployed):
+   for every cluster behaviour, every initial ledger and every flag combination
+   (cleanup-on-fail, no-hooks, replace, max-history, ...). *)
+Theorem C03_failed_is_recorded :
+  forall (K : Type) (kh : forall e : eff, K -> K * resp e * list kev) (dresp : forall e, resp e)
+         (rn ns : string) (o : op) (l0 : list release) (k0 : K) l' k' c t,
+    (match o with OpUninstall _ => False | _ => True end) ->
+    f_atomic (op_flags o) = false -> f_dry_run (op_flags o) = false ->
+    run_op K kh dresp rn ns o nofault l0 k0 = (l', k', OErr c, t) ->
+    forall y, In y l' -> ~ In (rev y) (revs l0) -> st y = SFailed.
+Proof. exact failed_is_recorded. Qed.
+Print Assumptions C03_failed_is_recorded.
 
-(* Known finding K7 — why C03_failed_is_recorded excludes faults of the deletion phase:
-   install {a,b}; upgrade to {a'} with DELETE b (or GET b) rejected: success, b stays. *)
+(* ... in particular under the object-store cluster with any one-shot fault: a rejected
+   create / patch / get / delete of any resource, a failing hook, a failing wait *)
+Theorem C03_failed_is_recorded_store :
+  forall rn ns o cf w w' c t,
+    (match o with OpUninstall _ => False | _ => True end) ->
+    f_atomic (op_flags o) = false -> f_dry_run (op_flags o) = false ->
+    run_store_op rn ns (mkOp o nofault cf) w = (w', OErr c, t) ->
+    forall y, In y (w_led w') -> ~ In (rev y) (revs (w_led w)) -> st y = SFailed.
+Proof. exact failed_is_recorded_store. Qed.
+Print Assumptions C03_failed_is_recorded_store.
+
+(* Known finding K7 — what the theorem above does NOT say: that every rejected call makes
+   the operation fail.  install {a,b}; upgrade to {a'} with DELETE b (or GET b) rejected in
+   the deletion phase of the update: the operation reports success, b stays. *)
 Theorem C03_delete_swallowed_refuted :
   exists h w,
     final h = Some (w, OOk) /\
@@ -25,6 +49,63 @@ Theorem C03_delete_swallowed_refuted :
     amem "ConfigMap/b" (w_objs w) = true.
 Proof. exact delete_swallowed_refuted. Qed.
 Print Assumptions C03_delete_swallowed_refuted.
+
+Theorem C03_get_swallowed_refuted :
+  exists h w,
+    final h = Some (w, OOk) /\
+    statuses (w_led w) = [(1, SSuperseded); (2, SDeployed)] /\
+    amem "ConfigMap/b" (w_objs w) = true.
+Proof. exact get_swallowed_refuted. Qed.
+Print Assumptions C03_get_swallowed_refuted.
+
+(* C03_previous_stays_deployed — after a failed non-atomic install or upgrade the revision
+   that was deployed before (the highest one marked deployed) is still stored, unchanged,
+   with status deployed — also when the upgrade pruned the history (max-history). *)
+Theorem C03_previous_stays_deployed :
+  forall (K : Type) (kh : forall e : eff, K -> K * resp e * list kev) (dresp : forall e, resp e)
+         (rn ns : string) (o : op) (l0 : list release) (k0 : K) l' k' c t (d : release),
+    (match o with OpInstall _ _ _ _ _ | OpUpgrade _ _ _ _ _ => True | _ => False end) ->
+    f_atomic (op_flags o) = false -> f_dry_run (op_flags o) = false ->
+    NoDup (revs l0) ->
+    max_rev_of (filter (fun r => status_eqb (st r) SDeployed) l0) = Some d ->
+    run_op K kh dresp rn ns o nofault l0 k0 = (l', k', OErr c, t) ->
+    In d l' /\ st d = SDeployed.
+Proof. exact previous_stays_deployed. Qed.
+Print Assumptions C03_previous_stays_deployed.
+
+Theorem C03_previous_stays_deployed_store :
+  forall rn ns o cf w w' c t d,
+    (match o with OpInstall _ _ _ _ _ | OpUpgrade _ _ _ _ _ => True | _ => False end) ->
+    f_atomic (op_flags o) = false -> f_dry_run (op_flags o) = false ->
+    NoDup (revs (w_led w)) ->
+    max_rev_of (filter (fun r => status_eqb (st r) SDeployed) (w_led w)) = Some d ->
+    run_store_op rn ns (mkOp o nofault cf) w = (w', OErr c, t) ->
+    In d (w_led w') /\ st d = SDeployed.
+Proof. exact previous_stays_deployed_store. Qed.
+Print Assumptions C03_previous_stays_deployed_store.
+
+(* the hypotheses are met: install {a,b}; upgrade to {a',c} with CREATE c rejected *)
+Example C03_containment_example :
+  (match ex_upgrade with OpUninstall _ => False | _ => True end) /\
+  f_atomic (op_flags ex_upgrade) = false /\ f_dry_run (op_flags ex_upgrade) = false /\
+  NoDup (revs (w_led ex_w1)) /\
+  (exists d, max_rev_of (filter (fun r => status_eqb (st r) SDeployed) (w_led ex_w1)) = Some d /\ rev d = 1) /\
+  exists w' t, run_store_op "rel" "default" (mkOp ex_upgrade nofault ex_cf) ex_w1 = (w', OErr EOtherErr, t) /\
+               statuses (w_led w') = [(1, SDeployed); (2, SFailed)].
+Proof. exact containment_example. Qed.
+Print Assumptions C03_containment_example.
+
+(* Known finding K6 — why the atomic clause needs its hypothesis: install {a,b};
+   upgrade --atomic to {a'} with PATCH a rejected: the automatic rollback aborts on the
+   dropped resource b; history 1:deployed 2:superseded 3:failed, no new deployed revision,
+   and the revision the upgrade created is recorded superseded, not failed. *)
+Theorem C03_atomic_dropped_refuted :
+  exists h w out,
+    final h = Some (w, out) /\ out = OErr EOtherErr /\
+    statuses (w_led w) = [(1, SDeployed); (2, SSuperseded); (3, SFailed)] /\
+    amem "ConfigMap/b" (w_objs w) = true.
+Proof. exact atomic_dropped_refuted. Qed.
+Print Assumptions C03_atomic_dropped_refuted.
 
 (* Repaired F5 (fix 34832b0 in /repo, modelled): a failing pre-rollback hook leaves the
    revision of the rollback failed, not pending-rollback. *)
